@@ -1296,6 +1296,10 @@ class TransformSet:
             to_instrument=captures,
             set_conformer=self.set_conformer,
         )
+        # This helper shares its code object with the target function while a
+        # probe is active: it must not be mistaken for it when resolving an
+        # absolute reference
+        transformed.__ptera_discard__ = True
         return self._register(captures, transformed)
 
 
